@@ -121,7 +121,7 @@ fn case_json(profile: &str, shape: &str, api: &str, depth: usize, word: &[u8]) -
 }
 
 fn grid_depths(tier: Tier) -> Vec<usize> {
-    tier.pick(vec![1, 10, 100, 1000, 10_000, 30_000, 100_000], vec![1, 10, 100, 1000, 3000, 10_000, 30_000, 100_000, 300_000])
+    tier.pick(vec![1, 10, 100, 254, 255, 256, 1000, 10_000, 30_000, 100_000], vec![1, 10, 100, 127, 128, 254, 255, 256, 257, 1000, 3000, 10_000, 30_000, 65_535, 65_536, 100_000, 300_000])
 }
 
 fn cap_depth(profile: &str, shape: &str, api: &str, tier: Tier, d: usize) -> usize {
@@ -158,10 +158,10 @@ impl Property for C11P {
         "C11"
     }
     fn rule(&self) -> String {
-        "Scenarios = build profile {the harness's optimised build; the unoptimised dev profile of /verif/nestchild, where frames are larger and tail calls stay calls — present when bin/check built it} x nesting shape {'- ', '? ', '[', '{a: ', alternating block, alternating flow, block then flow, 'k:' per level, '- ' per level around a literal block scalar whose spaces-only lines straddle the 16-character window \
+        "Scenarios = build profile {the harness's optimised build; the unoptimised dev profile of /verif/nestchild, where frames are larger and tail calls stay calls — present when bin/check built it} x nesting shape {'- ', '? ', '[', '{a: ' (left open, and closed again), alternating block, alternating flow, block then flow, 'k:' per level, '- ' per level around a literal block scalar whose spaces-only lines straddle the 16-character window \
          (depth capped at 5*10^3 quick / 2*10^4 thorough because the input is quadratic; nested collection keys through the loaders capped at 10^4 (3*10^3 unoptimised) because hashing nested keys is quadratic), random opener mixes} x API {pull iterator, \
          Parser::load with a counting receiver, load_from_str + forget, load_from_str + drop, MarkedYamlOwned load + drop, iteratively \
-         built tree + drop, iteratively built tree + YamlEmitter::dump with default settings and with multiline_strings(true); the '? ' shape is built nested in key position (capped at 3*10^3: building it hashes every level)} x depth {1, 10, 10^2, 10^3, 10^4, 3*10^4, 10^5 (+3*10^3, 3*10^5 thorough)} \
+         built tree + drop, iteratively built tree + YamlEmitter::dump with default settings and with multiline_strings(true); the '? ' shape is built nested in key position (capped at 3*10^3: building it hashes every level)} x depth {1, 10, 10^2, 254, 255, 256, 10^3, 10^4, 3*10^4, 10^5 (+127, 128, 257, 3*10^3, 65535, 65536, 3*10^5 thorough)} \
          plus proptest-generated (shape, API, log-uniform depth, opener word). Each scenario runs in its own child process on a thread \
          with an 8 MiB stack; the child must exit normally with 'ok' or 'err'. SIGSEGV / SIGABRT => violation (smallest crashing depth \
          bisected). Non-trivial = depth >= 1000; distinct by (profile, shape, API, depth, word)."
